@@ -8,6 +8,7 @@ package c20
 import (
 	"encoding/base64"
 	"fmt"
+	"math"
 
 	"github.com/MichaelMure/git-bug/api/graphql/connections"
 	"github.com/MichaelMure/git-bug/api/graphql/models"
@@ -384,6 +385,12 @@ type Size struct {
 func sizeDomain(n int) []Size {
 	out := []Size{{nil}}
 	for v := -1; v <= n+1; v++ {
+		x := v
+		out = append(out, Size{&x})
+	}
+	// "everything that is left": the largest sizes a client can send (GraphQL Int is read into a Go int),
+	// where size+1 and offset+size no longer fit, and the most negative one
+	for _, v := range []int{math.MaxInt32, math.MaxInt64 - 1, math.MaxInt64, math.MinInt64} {
 		x := v
 		out = append(out, Size{&x})
 	}
